@@ -360,6 +360,17 @@ class FnExec:
             return self.expr(n.args[0], st.old, pc)
         if nm == "implies":
             a = self.expr(n.args[0], st, pc); b = self.expr(n.args[1], st, pc); return Val(BOOL, z3.Implies(a.z, b.z))
+        if nm in ("forall", "exists") and self.th.B is None and isinstance(n.args[3], ast.Call) and isinstance(n.args[3].func, ast.Name) and n.args[3].func.id == nm:
+            # directly nested quantifiers of the same kind become ONE multi-variable quantifier, so that E-matching can use a multi-pattern
+            chain = []; cur = n
+            while isinstance(cur, ast.Call) and isinstance(cur.func, ast.Name) and cur.func.id == nm and len(cur.args) == 4:
+                chain.append(cur); cur = cur.args[3]
+            s2 = st; bound = []; rngs = []
+            for q in chain:
+                lo = self.expr(q.args[1], s2, pc).z; hi = self.expr(q.args[2], s2, pc).z
+                i = fresh_int(q.args[0].id); bound.append(i); rngs.append(z3.And(lo <= i, i < hi)); s2 = self.bind_q(s2, q.args[0].id, Val(INT, i))
+            body = self.expr(cur, s2, pc).z
+            return Val(BOOL, z3.ForAll(bound, z3.Implies(z3.And(*rngs), body)) if nm == "forall" else z3.Exists(bound, z3.And(*rngs, body)))
         if nm in ("forall", "exists"):
             var = n.args[0].id; lo = self.expr(n.args[1], st, pc).z; hi = self.expr(n.args[2], st, pc).z
             i = fresh_int(var); body = self.expr(n.args[3], self.bind_q(st, var, Val(INT, i)), pc).z
